@@ -122,7 +122,7 @@ inline std::string gen_label(Rng& r, uint32_t len) {
 }
 
 inline std::string gen_host(Rng& r) {
-  switch (r.below(16)) {
+  switch (r.below(17)) {
     case 0: case 1: case 2: {  // ascii domain, lengths straddling 16/32
       static const uint32_t lens[] = {1, 3, 7, 14, 15, 16, 17, 30, 31, 32, 33, 63};
       std::string o = gen_label(r, pick(r, lens));
@@ -194,6 +194,17 @@ inline std::string gen_host(Rng& r) {
       std::string o = gen_label(r, r.range(1, 6));
       o.insert(o.begin() + r.below(uint32_t(o.size() + 1)), kInterestingAscii[r.below(sizeof(kInterestingAscii) - 1)]);
       return o + ".test";
+    }
+    case 15: {  // labels whose IDNA form is many times longer than their UTF-8 form
+      static const uint32_t big[] = {0x3316, 0xFDF2, 0x3300, 0x3351, 0x33AF, 0xFB03, 0x2167, 0x1F12B};
+      std::string o;
+      int n = r.range(1, 5);
+      for (int i = 0; i < n; i++) {
+        if (i) o += ".";
+        int k = r.range(1, 2);
+        for (int j = 0; j < k; j++) append_utf8(o, pick(r, big));
+      }
+      return o;
     }
     default: return "example.com";
   }
